@@ -213,6 +213,23 @@ Proof. exact (fun d name t ts v u Hin Ha Hu => conj (opaque_declared_depends d n
                                                      (opaque_declared_invalidated_by_shell d name t ts v u Hin Ha Hu)). Qed.
 Print Assumptions C16_opaque_declared_invalidated.
 
+(* ---- a consumer's value is a function of its own argument terms --------------------------------------------- *)
+(* same function, same argument terms: same outcome in every store, whatever the identifiers ... *)
+Theorem C16_consumer_depends_on_own_arguments : forall (kinds : positive -> fkind) (st : tid -> option val) (t1 t2 : task),
+  t_fn t1 = t_fn t2 -> t_args t1 = t_args t2 -> t_kwargs t1 = t_kwargs t2 ->
+  task_run kinds st t1 = task_run kinds st t2.
+Proof. exact task_run_own_arguments. Qed.
+Print Assumptions C16_consumer_depends_on_own_arguments.
+
+(* ... and consumers (of a free function) can have the same result only if their own arguments resolve alike:
+   consumers of views with different values must be different tasks with results of their own *)
+Theorem C16_shared_result_needs_equal_inputs : forall (kinds : positive -> fkind) (st : tid -> option val) (t1 t2 : task) (v : val),
+  t_fn t1 = t_fn t2 -> kinds (t_fn t1) = FkApp ->
+  task_run kinds st t1 = FRet v -> task_run kinds st t2 = FRet v ->
+  task_inputs st t1 = task_inputs st t2.
+Proof. exact task_run_shared_result. Qed.
+Print Assumptions C16_shared_result_needs_equal_inputs.
+
 (* ---- non-vacuity: a concrete nested argument ---------------------------------------------------------- *)
 (* tasks 1..3 hold  {0: [10, 20, 30], 7: 5},  (0, 2)  and  0 ;  blocks 4, 5, 6 hold the pieces of
    [100..106] for map_step 3.
